@@ -101,8 +101,11 @@ func (this *ByteTransformSequence) Forward(src, dst []byte) (uint, uint, error) 
 			}
 		}
 
-		// Apply forward transform
-		if _, length, err = this.transforms[i].Forward((in)[0:length], out); err != nil || length > maxLength {
+		// Apply forward transform. Every stage gets an output buffer of the same size,
+		// whatever the capacity of the buffers provided by the caller: a stage may decline
+		// when its output buffer looks too small, and the result must not depend on how
+		// big the (reused) buffers happen to be.
+		if _, length, err = this.transforms[i].Forward((in)[0:length], out[0:requiredSize]); err != nil || length > maxLength {
 			// Transform failed. Either it does not apply to this type
 			// of data or a recoverable error occurred => revert
 			length = savedLength
@@ -199,7 +202,9 @@ func (this *ByteTransformSequence) MaxEncodedLen(srcLen int) int {
 			continue
 		}
 
-		nxtSize := t.MaxEncodedLen(requiredSize)
+		// A stage processes the output of the previous stages or, when they are
+		// skipped, the original block
+		nxtSize := max(t.MaxEncodedLen(requiredSize), t.MaxEncodedLen(srcLen))
 
 		if nxtSize > requiredSize {
 			requiredSize = nxtSize
